@@ -177,6 +177,15 @@ CLAIMS = {
         not_decided='nothing essential - this property is static; residual risk is the ABI calculator (x86-64 SysV, no _pack_) and configurations '
                     'other than the default build (OPENGL display structs are noted, not decided)',
         design_ref='3/C18'),
+    'C19': dict(
+        module='c19', level='other',
+        technique='inventory of static storage and who-writes analysis over all translation units, banned-call lint, lock-region typestate in the integrate loop and the server handlers, call/effect set of the server thread and the serialiser',
+        decided='every object with static storage duration in the library is const, is the one allowed signal flag, or is never written and never address-taken; no function-local mutable static exists; '
+                'no libc function with hidden global state is called; a step (archive heartbeat, step, heartbeat) runs between lock and unlock of the server mutex with no jump out of the region; every server handler '
+                'touches the live simulation (serialiser, key callback) only while holding that mutex and releases it on every path including the goto paths; the server thread calls only the serialiser '
+                '(and message functions) on the live simulation, and the serialiser - transitively through the integrator init hooks - calls no trajectory-changing function and writes only a frozen list of members.',
+        not_decided='schedules; unlocked status writes of the keyboard handler; integrate prologue/epilogue outside the mutex; user callbacks; AVX512 statics (thorough tier only)',
+        design_ref='3/C19'),
     'C20': dict(
         module='c20', level='other',
         technique='dimension typing of the Python unit converters (abstract interpretation over monomials), constant folding of the unit tables, algebraic summaries of rotations.c checked as polynomial identities (sympy, Groebner reduction)',
